@@ -67,6 +67,8 @@ type ICAWorld struct {
 	txChans  map[string]*icaChan
 	LastPkts []ICAPacket // packets of the last delivered tx (committed or not)
 	LastRegs []ICAReg
+	// claim: Keeper.ClaimCapability of the real intertx keeper of the current application object
+	claim func(ctx sdk.Context, cpb *capabilitytypes.Capability, name string) error
 }
 
 func NewICAWorld(cfg ICAWorldCfg) *ICAWorld {
@@ -209,6 +211,11 @@ func init() {
 		}
 		k := intertxkeeper.NewKeeper(c.Enc.Cdc, stubController{c.Opts.ICA}, stubCaps{c.Opts.ICA})
 		intertxv1.RegisterMsgServer(c.App.MsgServiceRouter(), k)
+		// the channel handshake callback of the real module claims the capability through the keeper
+		kk := k
+		c.Opts.ICA.claim = func(ctx sdk.Context, cpb *capabilitytypes.Capability, name string) error {
+			return kk.ClaimCapability(ctx, cpb, name)
+		}
 	}
 }
 
@@ -229,7 +236,16 @@ func (w *World) execICA(st *Step) {
 		if c != nil && c.State != "CLOSED" {
 			if _, has := w.ICA.Caps[capName(port, c.ID)]; !has {
 				w.ICA.nextCap++
-				w.ICA.Caps[capName(port, c.ID)] = w.ICA.nextCap
+				cpb := &capabilitytypes.Capability{Index: w.ICA.nextCap}
+				if w.ICA.claim != nil {
+					// as OnChanOpenInit of the real module does: through the keeper (whatever else it
+					// claims or records on that occasion is its own doing)
+					if err := w.ICA.claim(w.Chain.WorkCtx(), cpb, capName(port, c.ID)); err != nil {
+						w.HarnessFail("ClaimCapability: %v", err)
+					}
+				} else {
+					w.ICA.Caps[capName(port, c.ID)] = cpb.Index
+				}
 				w.Fault("F12_capability_claimed")
 			}
 		}
